@@ -502,9 +502,9 @@ def tasks(tier):
         modes = ["bounded", "difftest"] + (["cover"] if sc == "single" else [])
         out.append(dict(fn="axi_contract", cfg=cfg, modes=modes, depth=d, weight=30, timeout_ms=2400000,
                         difftest_cycles=40, oneshot=one, search_depth=d))
-    for cfg in [dict(wdepth=2), dict(wdepth=4), dict(wdepth=16), dict(wdepth=4, base=32)]:
+    for cfg in [dict(wdepth=2), dict(wdepth=3), dict(wdepth=4), dict(wdepth=7), dict(wdepth=16), dict(wdepth=4, base=32)]:
         out.append(dict(fn="w_reservation_contract", cfg=cfg, modes=["inductive", "response", "cover", "difftest"], weight=2, difftest_cycles=100))
-    for cfg in [dict(rdepth=2), dict(rdepth=4), dict(rdepth=8), dict(rdepth=4, base=32)]:
+    for cfg in [dict(rdepth=2), dict(rdepth=3), dict(rdepth=4), dict(rdepth=7), dict(rdepth=8), dict(rdepth=4, base=32)]:
         out.append(dict(fn="r_reservation_contract", cfg=cfg, modes=["inductive", "cover", "difftest"], weight=2, difftest_cycles=100))
     out.append(dict(kind="custom", fn="native_rmw_task", cfg={}, weight=5))
     return out
